@@ -496,7 +496,7 @@ class _Patches:
 
 
 def run_controlled(case, strategy, mon=None, env=None, tasks_graphs=None,
-                   max_steps=100000, clock0=0):
+                   max_steps=100000, clock0=0, fine=None):
     '''One run of the real scheduler under the controller.'''
     # pylint: disable=too-many-locals,too-many-statements
     import valjean.cosette.backends.queue as qmod
@@ -520,6 +520,16 @@ def run_controlled(case, strategy, mon=None, env=None, tasks_graphs=None,
     res.env = env
     before = len(mon.start_violations)
     patches = _Patches(ctl)
+    remove_lines, line_hits = (lambda: None), [0, 0]
+    if fine:
+        # fine-grained mode: a share of the source lines of queue.py and
+        # env.py executed by managed threads become scheduling points too
+        # (`fine` = (random.Random, probability))
+        def line_point(line):
+            if not ctl.aborted and threading.current_thread() in ctl.recs:
+                ctl.sync(None, f'line:{line}')
+        remove_lines, line_hits = _yield_injection(fine[0], fine[1],
+                                                   action=line_point)
     with patches:
         backend = qmod.QueueScheduling(n_workers=case['workers'])
         if not isinstance(backend.queue, ctlmod.CoopQueue):
@@ -560,6 +570,7 @@ def run_controlled(case, strategy, mon=None, env=None, tasks_graphs=None,
                 res.lost = ctl.lost
         finally:
             ctl.shutdown()
+            remove_lines()
     for thread in patches.workers:
         thread.join(5.0)
     env.lock = threading.RLock()
@@ -572,6 +583,9 @@ def run_controlled(case, strategy, mon=None, env=None, tasks_graphs=None,
     res.steps = ctl.step
     res.start_violations = mon.start_violations[before:]
     res.counters = dict(ctl.counters)
+    if fine:
+        res.counters['line_events'] = line_hits[0]
+        res.counters['line_scheduling_points'] = line_hits[1]
     res.clock = ctl.clock
     return res
 
@@ -582,10 +596,11 @@ def run_controlled(case, strategy, mon=None, env=None, tasks_graphs=None,
 _TOOL = [None]
 
 
-def _yield_injection(rng, prob):
+def _yield_injection(rng, prob, action=None):
     '''sys.monitoring LINE callback on the scheduler's and the environment's
-    code objects: sleep(0) / tiny sleeps with probability `prob`.  Returns a
-    function that removes it and a counter list.'''
+    code objects: with probability `prob`, sleep(0) / tiny sleeps (stress
+    layer) or `action(line)` (controlled engine: a scheduling point).
+    Returns a function that removes it and a counter list.'''
     import valjean.cosette.backends.queue as qmod
     import valjean.cosette.env as emod
     mon = sys.monitoring
@@ -622,7 +637,10 @@ def _yield_injection(rng, prob):
         rnd = rng.random()
         if rnd < prob:
             hits[1] += 1
-            time.sleep(0 if rnd < prob * 0.7 else 0.0002)
+            if action is not None:
+                action(line)
+            else:
+                time.sleep(0 if rnd < prob * 0.7 else 0.0002)
 
     try:
         mon.use_tool_id(tool, 'vf-yield')
